@@ -942,7 +942,11 @@ def gen_ops(rng, ref, nops, bias_guards=True, focus=False):
     sels = sorted({fp.sel for fp in flat if fp.sel is not None})
     plan = []
     if focus and guards:
-        g = rng.choice(guards)
+        # switches that govern ports of their own directory (rSelf, "name/toggle" forms) are rarer: half of
+        # the focused files are about one of them
+        dirn = lambda i: flat[i].path.rsplit("/", 1)[0]
+        own = [g for g in guards if any(g in fp.hard + fp.soft and dirn(j) == dirn(g) for j, fp in enumerate(flat))]
+        g = rng.choice(own) if (own and rng.random() < 0.5) else rng.choice(guards)
         below = [i for i, fp in enumerate(flat) if g in fp.hard + fp.soft]
         plan = [g] + rng.sample(below, min(len(below), 2))
     for n_op in range(nops):
